@@ -166,6 +166,11 @@ def finish(mod, modname, prop, tier, seed, results, rec_funcs, wall, verbose=Fal
         lines.append(f'  key={fkey} cases={len(vs)} first: {vs[0]["detail"][:300]} desc={json.dumps(vs[0]["desc"])[:300]}')
         exit_code = 1
     problems = [r for r in results if r['status'] in ('inconclusive', 'error')]
+    timeouts = [r for r in results if r['status'] == 'timeout']
+    if timeouts:
+        lines.append(f'NOTE property={prop}: {len(timeouts)} of {n} cases exceeded their wall-clock budget during code generation and were NOT explored (listed in evidence)')
+        if len(timeouts) > max(3, n // 20) and exit_code == 0:
+            exit_code = 2
     if problems and exit_code == 0:
         exit_code = 2
     for r in problems[:10]:
@@ -212,6 +217,7 @@ def finish(mod, modname, prop, tier, seed, results, rec_funcs, wall, verbose=Fal
         'outside_the_bound': getattr(mod, 'OUTSIDE', []),
         'known_findings_seen': sorted(known),
         'inconclusive': len(problems),
+        'not_explored_timeouts': [{kk: vv for kk, vv in r['desc'].items() if kk != '_idx'} for r in results if r['status'] == 'timeout'][:40],
         'paths_explored': sum(r.get('paths', 1) for r in results),
     }
     for r in results:
